@@ -608,6 +608,11 @@ impl TwistPoint {
             return self.clone();
         }
 
+        // the formulas below are a mixed addition (they never read z2): only an affine rhs may take them
+        if !z2.eq(&Fp2::one()) {
+            return twist_point_add_full(self, rhs);
+        }
+
         let mut t1 = z1.fp_sqr();
         let mut t2 = t1.fp_mul(&z1);
 
